@@ -8,6 +8,7 @@ pub mod c06;
 pub mod c07;
 pub mod c10;
 pub mod c11;
+pub mod c19;
 
 pub fn by_id(id: &str) -> Option<Arc<dyn Check>> {
     Some(match id {
@@ -18,6 +19,7 @@ pub fn by_id(id: &str) -> Option<Arc<dyn Check>> {
         "C07" => Arc::new(c07::C07),
         "C10" => Arc::new(c10::C10),
         "C11" => Arc::new(c11::C11),
+        "C19" => Arc::new(c19::C19),
         _ => return None,
     })
 }
